@@ -10,7 +10,10 @@ import (
 func (tr *Trace) failedStops() map[int]int {
 	m := map[int]int{}
 	for _, a := range tr.APIs {
-		if (a.Call == "Stop" || a.Call == "StopWithContext") && a.RetSeq >= 0 && a.Err != "" && a.Err != "already stopped" {
+		// (the statement says "Stop, successful StopWithContext": whatever Stop returns, it ends the term with its
+		// OnDemote; the exemption is for StopWithContext calls that failed and for the cancellation variant whose
+		// "call" the harness gave up on)
+		if (a.Call == "StopWithContext" || (a.Call == "Stop" && a.Action != nil && a.Action.Kind == ActCancelCtx)) && a.RetSeq >= 0 && a.Err != "" && a.Err != "already stopped" {
 			if old, ok := m[a.Obj]; !ok || a.CallSeq < old {
 				m[a.Obj] = a.CallSeq
 			}
